@@ -53,6 +53,30 @@ def scenario(targets, threads, order, json_out=False, extra=(), port=22):
     return {'argv': argv, 'servers': servers, 'files': {'targets.txt': '\n'.join(lines) + '\n'}, 'observe': True, 'setup': setup, 'alarm': 60}, labels
 
 
+def eager(sc):
+    """The same scenario with the interpreter switching worker threads as often as it can and giving way at every
+    regular-expression call: unsynchronised state shared between worker threads, if any, is hit (schedule perturbation)."""
+    inner = sc.get('setup')
+
+    def setup(world, inner=inner):
+        import os as _os
+        import re as _re
+        import sys as _sys
+        _sys.setswitchinterval(1e-6)
+        for fname in ('match', 'search', 'sub', 'findall', 'fullmatch', 'split'):
+            orig = getattr(_re, fname)
+
+            def yielding(*a, _orig=orig, **k):
+                _os.sched_yield()
+                return _orig(*a, **k)
+            setattr(_re, fname, yielding)
+        if inner is not None:
+            inner(world)
+    out = dict(sc)
+    out['setup'] = setup
+    return out
+
+
 def single_scenario(t, i, json_out=False, extra=(), port=22):
     host = ip_of(i)
     servers = {}
